@@ -65,7 +65,14 @@ RULE = ('scale-maths: physical edges lP in [-100, 100], width in [1e-3, 100] (in
         '100 / 200 / 500 / 1000, with and without API header; adapter-plot: the same cases, formats drawn among those that plot '
         'one of the curves.  bundled-lis-plot: 3 files x (FILM/PRES of the file, each built-in '
         'format, one run with API header).  Non-trivial: scale case whose wrap count != 0; LAS case with >= 2 curves one of '
-        'which has absent values (las-plot and adapter-plot); bundled case that produced >= 1 SVG.  Distinct = distinct case.')
+        'which has absent values (las-plot and adapter-plot); bundled case that produced >= 1 SVG.  Distinct = distinct case.  '
+        'generated-lis-plot / generated-film-pres-plot (vt/props/c19_files.py): generated LIS files (1..6 channels of 8 value shapes, '
+        'direct or implied X, up or down, FEET / M / .1IN) carrying their own FILM (1..3 films, 3- and 4-track codes, blank tracks, '
+        'DSCA 1:20..1:1000) and PRES tables (1..6 rows: every track name incl. half tracks and T23, LLIN..HGAP and an unknown coding, '
+        'modes SHIF / GRAD / NB / WRAP / X10 or no MODE column, DEST a film, BOTH, ALL, NEIT or several names, customary / reversed '
+        '/ extreme edges, optional OUTP / FILT / COLO columns, AREA and PIP tables, one row with LEDG == REDG in 1 of 25 cases) '
+        'plotted by PlotLogs.PlotLogPasses; the SVG of every film is read back: geometry oracles of check_svg, depth of every '
+        'vertex, and for linear WRAP/SHIF curves the position of every sample vertex against the exact wrap reference.')
 ASSUMPTIONS = [
     'scale-maths is asserted only where every intermediate quantity of the documented formulae - logical span r-l (log: r/l '
     'and v/l), scale factor width/span, offset, normalised position and unwrapped position - is itself a finite, normal '
@@ -86,6 +93,9 @@ ASSUMPTIONS = [
     'the LAS plotting route is dead on this tree (finding F19a): the SVG checks of las-plot only run once it is repaired; until '
     'then adapter-plot gives the generated curve shapes real coverage: its frame holder is harness code that implements the '
     'duck-typed interface the Plot docstrings name, keyed by Mnem like the LgFormat outputs',
+    'PRES.STAT (ALLO / DISA) is not judged: the statement of C19 says nothing about it and the repository tests pin DISA curves '
+    'as plotted (c19_files.ASSERT_STAT = False); a film must give a plot only when an ALLO curve routed to it has a present value',
+    'a PRES row with LEDG == REDG is input the code documents (it logs and skips the curve): the other curves must still plot',
     '"no point for absent values" is read geometrically: no polyline vertex at a depth strictly inside an interval in which '
     'the channel has only absent samples (the neighbouring present samples bound the interval); an output with no present '
     'sample has no polyline.  The planned count oracle (points <= present samples + interpolation points) is not implemented',
